@@ -130,7 +130,7 @@ def coreCase (c : Case) : String :=
         let i := Core.coreInit cf body
         let firstDiff : Option Nat := (List.range (max m.code.size l.prog.code.size)).find? (fun k => m.code[k]? != l.prog.code[k]?)
         let verdict :=
-          if !Core.wfS [] body then "diff:not-well-formed"
+          if !(Core.wfS [] body && Core.youLevel body) then "diff:not-well-formed"
           else if m.w != l.prog.w then "diff:word-size"
           else if let some k := firstDiff then s!"diff:code@{k}:model={repr (m.code[k]?)}:real={repr (l.prog.code[k]?)}".replace "\n" " "
           else if m.const.data != l.prog.const.data then "diff:const"
